@@ -72,7 +72,7 @@ func matchReason(diags []string, r ir.Reason) bool {
 			continue
 		}
 		switch r.Class {
-		case "unused", "cycle", "bad-field", "bad-bind", "bad-ifacevalue", "bad-value":
+		case "unused", "cycle", "bad-field", "bad-bind", "bad-ifacevalue", "bad-value", "bad-sig":
 			return true
 		default:
 			if containsType(d, r.Subject) {
